@@ -24,7 +24,7 @@ CLAIMS = {
          "value-flow query that no raw return value of objfun/h/prox_uh/nsamples reaches a result field by plain copies",
          "Static decision of the structural clauses of the JSON round trip: keys written = keys read = constructor fields, each routed to the "
          "field of the same name; only plain data leave to_dict and NaN replacement covers the whole dict; None is mapped back to NaN for every "
-         "float-valued field; __str__ never applies a numeric conversion or len() to a possibly-None field; diagnostic columns hold scalars, table rows are uniquely labelled and an empty table is never summarised; NaN replacement visits every "
+         "float-valued field; __str__ never applies a numeric conversion or len() to a possibly-None field, and to_dict converts no field that a constructor call of the package leaves None (input-error results) outside a None test; diagnostic columns hold scalars, table rows are uniquely labelled and an empty table is never summarised; NaN replacement visits every "
          "element of nested containers; integer Model arrays keep an integer dtype at every re-binding (dtype inference through helpers). "
          "pandas/json library semantics are not decided.",
          "Trusted: CPython ast; np.array(list, dtype=float) maps None to NaN; json emits what to_dict's plain types contain.",
